@@ -324,3 +324,21 @@ Proof.
   - unfold r_sigmoid, g_sigmoid. replace (0 - 0)%R with 0%R by ring. rewrite exp_0. lra.
   - cbn [nth]. unfold r_sigmoid, g_sigmoid. replace (0 - 0)%R with 0%R by ring. rewrite exp_0. lra.
 Qed.
+
+(* =========================================================================================== *)
+(** * Part IV — the layer itself, REGENERATED FROM sknetwork/gnn/layer.py
+
+    [src_conv_embedding_{left,right,both,none}] (Gen/NpConv.v) are the pre-activation embedding of Convolution.forward for
+    the four normalisation branches (self_embeddings and use_bias read from the environment), translated on every run by
+    harness/translators/npvec.py into the array language of Model/NpVec.v.  Over R, for EVERY adjacency, feature and weight
+    matrix and bias (index functions), every normalisation and both options:
+        embedding[i][c] = sum_k (sum_j Nbar_ij X_jk) W_kc (+ b_c).
+    The layer output is the activation of this embedding (Part III covers the activations' own source terms). *)
+From SKN Require Import Model.NpVec Gen.NpConv Proofs.NpVecProofs Proofs.NpConvProofs.
+Local Open Scope R_scope.
+
+Theorem source_conv_embedding (nm : cnorm) (se ub : bool) (n d o : nat) (A X W : nat -> nat -> R) (b : nat -> R) :
+  exists f, rvdenote (env_conv n d o A X W b se ub) (src_of nm) = Some (WM n o f) /\
+            forall i c, (i < n)%nat -> f i c = conv_spec nm se ub n d A X W b i c.
+Proof. exact (NpConvProofs.source_conv_embedding nm se ub n d o A X W b). Qed.
+Print Assumptions source_conv_embedding.
